@@ -90,6 +90,15 @@ CHECKS = {
    note='Trusted: z3, the numpy stubs (documented algorithms), standard model validity in the normal range. Claim range for make_knots: |a|,|b|<=1e5, b-a>=1e-6, n<=2000. '
         'Exact-FP search is bug hunting only (unknown = nothing found).',
    technique='SMT over a standard-model encoding of rounding (NRA) + exact QF_FP bug hunting; symbolic execution for the queries'),
+ 'C16': dict(
+   category='other', design_ref='4/C16',
+   text='Bounded symbolic verification: the operator classes of operators.py (on top of the real scipy LinearOperator), kronecker.py and the tensor-product '
+        'application routines of tensor.py are exec\'d from source and applied to symbolic operands (dense object arrays, sparse model, abstract operators) and '
+        'symbolic vector / (n,1) / multi-column arguments; z3 proves entrywise equality with the explicit dense definition (np.kron, block assembly, sum P B P^T, '
+        'mode-wise products) for the operator, its transpose and its adjoint, for 1-3 factors with independent shapes <= 3, rectangular block layouts with null '
+        'blocks, None placeholders and trailing axes.',
+   note='Trusted: z3, symsparse stub, scipy LinearOperator dispatch, reals for doubles. Not applicable part: solver factories (LAPACK/SuperLU/eigh behind FFI).',
+   technique='symbolic execution of real Python source on object arrays + z3 (polynomial identities)'),
 }
 
 NA = {
